@@ -14,7 +14,7 @@ from pbt import gen
 from pbt.harness import Task, ok, violation, discard, xt_call
 
 PID = "C14"
-RULE = ("method in {linear, cspline} x bc in {not-a-knot(>=4 knots), natural, clamped, periodic} x extrap in {default, nan, constant, "
+RULE = ("method in {linear, cspline} x bc in {not-a-knot(>=4 knots), natural, clamped, periodic} x extrap in {default, nan, constant (float/int/0-d/1-element tensor, incl. exactly 0), "
         "callable, bound, mirror, periodic} x grid (3..40 knots, spacing ratio <=100, optionally shuffled) x queries (at knots, at the "
         "range ends, inside, outside; 1..3n of them, shuffled) x y batch shape x y at init/call x reuse of one object for several calls. "
         "Non-trivial = at least one query strictly between knots; distinct by canonical case.")
@@ -115,9 +115,19 @@ def run_case(case):
     kw = {"method": method}
     if method == "cspline":
         kw["bc_type"] = bc
-    const = 1.75
+    const = float(case.get("const", 1.75))
+    cform = case.get("constform", "float")
+    const_arg = {"float": float(const), "int": int(const), "tensor": torch.tensor(const, dtype=DT), "tensor1": torch.tensor([const], dtype=DT)}[cform]
+    if cform == "int":
+        const = float(int(const))
+    seen_by_callable = []
+
+    def extrap_fcn(z):
+        # documented: "apply this extrapolation function with the extrapolated positions"
+        seen_by_callable.append(z.detach().clone())
+        return 2.0 * z + 1.0
     if extrap != "default":
-        kw["extrap"] = {"nan": "nan", "const": const, "callable": (lambda z: 2.0 * z + 1.0), "bound": "bound",
+        kw["extrap"] = {"nan": "nan", "const": const_arg, "callable": extrap_fcn, "bound": "bound",
                         "mirror": "mirror", "periodic": "periodic", "none": None}[extrap]
     xq_t = torch.tensor(xq, dtype=DT)
 
@@ -129,6 +139,15 @@ def run_case(case):
     got = xt_call(evaluate, case["yat"], xq_t, _where="interp")
     if tuple(got.shape) != (*batch, nq):
         return violation("shape", "result shape %s, expected %s" % (tuple(got.shape), (*batch, nq)), labels)
+    if extrap == "callable":
+        for z in seen_by_callable:
+            zz = z.reshape(-1).numpy()
+            if ((zz >= xmin) & (zz <= xmax)).any():
+                return violation("callable_args", "the extrapolation callable was applied to positions inside the sample range [%r, %r]: %r" % (
+                    xmin, xmax, zz[(zz >= xmin) & (zz <= xmax)][:4].tolist()), labels)
+        if has_out and not seen_by_callable:
+            return violation("callable_not_called", "queries outside the range but the extrapolation callable was never called", labels)
+        del seen_by_callable[:]
 
     # reference
     sbc = bc if method == "cspline" else None
@@ -256,7 +275,9 @@ def case_st(draw, tier="quick"):
     rel = draw(st.sampled_from(["init_vs_call", "sorted_vs_shuffled", "query_perm", "few_vs_many", "reuse", "grad", "grad"]))
     if rel == "grad":
         qkinds = [k for k in qkinds if not k.startswith("out")] or ["in"]
-    return {"method": method, "bc": bc, "extrap": extrap, "incs": incs, "xscale": draw(st.sampled_from([1.0, 0.01, 30.0])),
+    constv = draw(st.sampled_from([1.75, 0.0, 0.0, -2.0, 3.0]))
+    return {"const": constv, "constform": draw(st.sampled_from(["float", "float", "int", "tensor", "tensor1"])),
+            "method": method, "bc": bc, "extrap": extrap, "incs": incs, "xscale": draw(st.sampled_from([1.0, 0.01, 30.0])),
             "x0": draw(st.sampled_from([0.0, -5.0, 2.5])), "shuffle": draw(st.booleans()), "nq": nq, "qkinds": qkinds,
             "batch": draw(st.sampled_from([[], [], [2], [1], [2, 3], [3, 1]])), "yat": draw(st.sampled_from(["init", "call"])),
             "rel": rel, "reuse_batches": draw(st.lists(st.sampled_from([[], [2], [1], [3], [2, 3]]), min_size=2, max_size=4)),
